@@ -584,6 +584,8 @@ pub enum Dev {
     SigSet(u32, Option<Val>),
     /// several record-level edits that only make sense together
     Multi(Vec<Dev>),
+    /// permute the index entries of the main header (1 reversed, 2 first entry moved last); the store is untouched
+    Reorder(u8),
 }
 
 fn variants(v: &Val) -> Vec<Val> {
@@ -685,6 +687,11 @@ fn build(base: &[(u32, Val)], devs: &[&Dev]) -> Vec<u8> {
             _ => {}
         }
     }
+    for d in devs.iter() {
+        if let Dev::Reorder(k) = d {
+            h.reorder(*k);
+        }
+    }
     let s = RawHeader::layout_region(62, &sig);
     assemble(&RawLead::new("nm"), &s, 0, &h, b"").0
 }
@@ -768,6 +775,9 @@ fn groups() -> Vec<Group> {
             Dev::Multi(vec![Dev::Set(t(T::RPMTAG_FILEDIGESTALGO), Val::Int32(vec![10])), Dev::Set(t(T::RPMTAG_FILEDIGESTS), Val::strs(&[&d("c3", 64), &d("d4", 64), &d("e5", 64)]))]),
             Dev::Multi(vec![Dev::Set(t(T::RPMTAG_FILEDIGESTALGO), Val::Int32(vec![11])), Dev::Set(t(T::RPMTAG_FILEDIGESTS), Val::strs(&[&d("c3", 28), &d("d4", 28), ""]))]),
             Dev::Set(t(T::RPMTAG_FILEDIGESTS), Val::strs(&["", "", ""])),
+            // hex digits are not case-normalised by the format
+            Dev::Set(t(T::RPMTAG_FILEDIGESTS), Val::strs(&[&d("A1", 32), &d("bC", 32), ""])),
+            Dev::Multi(vec![Dev::Drop(t(T::RPMTAG_FILEDIGESTALGO)), Dev::Set(t(T::RPMTAG_FILEDIGESTS), Val::strs(&[&d("C3", 16), &d("d4", 16), &d("Ee", 16)]))]),
             // empty file list
             Dev::Set(t(T::RPMTAG_BASENAMES), Val::strs(&[])),
         ],
@@ -782,11 +792,14 @@ pub static ALL_TAGS: &[T] = &[
 
 pub fn sweeps(ctx: &Ctx) -> Vec<Sweep> {
     let base = Arc::new(base_records());
-    let k = if ctx.thorough() { 2 } else { 1 };
+    let k = 2;
+    let _ = ctx;
     let mut v = vec![];
     for g in groups() {
         let mut m = menu(&base, &g.tags);
         m.extend(g.extra.iter().cloned());
+        m.push(Dev::Reorder(1));
+        m.push(Dev::Reorder(2));
         let nm = m.len() as u64;
         // index space: 1 (no deviation) + nm (one) + nm*nm (ordered pairs i<j only are run) for k = 2
         let n = 1 + nm + if k >= 2 { nm * nm } else { 0 };
@@ -794,7 +807,7 @@ pub fn sweeps(ctx: &Ctx) -> Vec<Sweep> {
         let accessors = g.accessors.clone();
         let name = format!("dev-{}", g.name);
         let rule = format!(
-            "complete well-formed base header with pairwise distinct byte-asymmetric values; all 0-, 1-{} deviation variants over the {} tags of group '{}' from a menu of {} deviations (drop tag; retype to each other type; count 0 / n−1 / n+1; empty, short, multi-byte, invalid-UTF-8 values; 1–3 locales; 32/64-bit size variants; out-of-range dir index; every digest algorithm; optional arrays); accessors {:?} compared with an independent decoding; non-trivial = accepted and well-formed, hence judged",
+            "complete well-formed base header with pairwise distinct byte-asymmetric values; all 0-, 1-{} deviation variants over the {} tags of group '{}' from a menu of {} deviations (drop tag; retype to each other type; count 0 / n−1 / n+1; empty, short, multi-byte, invalid-UTF-8 values; 1–3 locales; 32/64-bit size variants; out-of-range dir index; every digest algorithm; upper-case hex digests; optional arrays; index entries reversed / rotated); accessors {:?} compared with an independent decoding; non-trivial = accepted and well-formed, hence judged",
             if k >= 2 { " and 2-" } else { "" }, g.tags.len(), g.name, nm, accessors
         );
         let nm2 = name.clone();
@@ -826,13 +839,15 @@ pub fn sweeps(ctx: &Ctx) -> Vec<Sweep> {
     let base2 = Arc::new(base_records());
     let tags: Vec<u32> = ALL_TAGS.iter().map(|x| *x as u32).collect();
     let tg = tags.clone();
-    let n = tags.len() as u64 * 10 * 4;
-    v.push(Sweep::new("typed-getters", "each of 12 tags (present or absent in the base) × retyped to every type 0..9 × count ∈ {as laid out, 0, 1, 2}: all nine Header::get_entry_data_as_* getters and entry_is_present against the decoded value".into(), n, move |i, acc| {
+    let n = tags.len() as u64 * 10 * 4 * 3;
+    v.push(Sweep::new("typed-getters", "each of 12 tags (present or absent in the base) × retyped to every type 0..9 × count ∈ {as laid out, 0, 1, 2} × index order ∈ {sorted, reversed, rotated}: all nine Header::get_entry_data_as_* getters and entry_is_present against the decoded value".into(), n, move |i, acc| {
+        let order = (i % 3) as u8;
+        let i = i / 3;
         let tag = tg[(i / 40) as usize];
         let ty = (i / 4 % 10) as u32;
         let cnt = i % 4;
         acc.evals += 1;
-        let mut devs = vec![Dev::Retype(tag, ty)];
+        let mut devs = vec![Dev::Retype(tag, ty), Dev::Reorder(order)];
         if cnt > 0 {
             devs.push(Dev::Count(tag, cnt as u32 - 1));
         }
@@ -885,7 +900,7 @@ pub fn run(ctx: &Ctx) -> i32 {
         &[
             "the reference decoder (vlib::refhdr::value) implements the documented on-disk format; headers it cannot decode are not well-formed and are left to C04",
             "undefined corners are not judged: arrays of unequal length, optional arrays of a different length, mistyped optional tags, digests that do not fit the recorded algorithm, dirnames without trailing slash",
-            "deviation bound: 1 (quick) / 2 (thorough) from the base header",
+            "deviation bound: 2 from the base header in both tiers",
         ],
         vec![],
     )
